@@ -197,7 +197,14 @@ func (s *store) Get(key string) ([]byte, error) {
 		return nil, fmt.Errorf("failed to get value from main store: %w", err)
 	}
 
-	err = s.cacheStore.Put(key, value)
+	// The tags must be cached along with the value. Otherwise a later GetTags call would hit the cache and
+	// return no tags even though the main store has some.
+	tags, err := s.mainStore.GetTags(key)
+	if err != nil {
+		return nil, fmt.Errorf("failed to get tags from main store: %w", err)
+	}
+
+	err = s.cacheStore.Put(key, value, tags...)
 	if err != nil {
 		return nil,
 			fmt.Errorf("failed to put the newly retrieved data into the cache store for future use: %w", err)
